@@ -17,7 +17,7 @@ pub fn sym_leaf(i: usize, k: K, u: u8) -> u8 {
     let corrupt: bool = kani::any();
     let has_subkey: bool = kani::any();
     let sub_n: u8 = kani::any();
-    kani::assume(sub_n >= 1 && sub_n <= 3);
+    kani::assume(sub_n >= 1 && sub_n <= 2);
     match k {
         K::Eq | K::Pres => kani::assume(s[0] == t),
         K::Lt | K::Sub | K::Stw | K::Enw => kani::assume(s[0] & t == t && s[1] & t == t && s[2] & t == t),
@@ -56,10 +56,6 @@ pub fn leaf(i: usize, k: K) -> FilterResolved {
     }
 }
 
-pub fn arena_reset() {
-    unsafe { ARENA_NEXT = 0; }
-}
-
 pub fn sym_universe() -> u8 {
     let u: u8 = kani::any();
     kani::assume(u & !U_ALL == 0);
@@ -80,4 +76,28 @@ pub fn out_of(l: &IdList) -> Out {
         IdList::PartialThreshold(s) => Out::Thresh(s.0),
         IdList::Indexed(s) => Out::Indexed(s.0),
     }
+}
+
+/// An abstract child term number `i`: arbitrary truth set (inside the live ids) and an arbitrary
+/// evaluation result that is sound for it -- the induction hypothesis.  Returns the truth set.
+pub fn sym_child(i: usize, u: u8) -> u8 {
+    let t: u8 = kani::any();
+    kani::assume(t & !u == 0);
+    let kind: u8 = kani::any();
+    kani::assume(kind < 4);
+    let set: u8 = kani::any();
+    kani::assume(set & !u == 0);
+    match kind {
+        0 => {}
+        1 | 2 => kani::assume(set & t == t),
+        _ => kani::assume(set == t),
+    }
+    unsafe {
+        ORACLE[i] = ChildResult { kind, set };
+    }
+    t
+}
+
+pub fn child(i: usize) -> FilterResolved {
+    FilterResolved::Invalid(Attribute(i as u8))
 }
